@@ -102,12 +102,16 @@ def W.requireAccepted (w : W) : Option Exc :=
   | .closed => some (wsd w.closeCode)
   | .accepted => none
 
-/-- `accept(subprotocol, headers)`; `badSub` = the subprotocol argument is not a `str` -/
-def W.accept (w : W) (disc : Option Int) (headers : Bool) (sub : Bool) (badSub : Bool) : W × Option Exc :=
+/-- `accept(subprotocol, headers)`; `headers` = the argument is truthy (`if headers:`), `badSub` = the subprotocol argument is
+    not a `str`, `hdrExc` = what turning the `headers` argument into the event's list raises, if anything: an item that is not a
+    pair, a name / value that is not an ASCII `str`, and - after the names were lower-cased - the `ValueError` for a header named
+    `sec-websocket-protocol` in any letter case.  `Wa.headerExc` (WsAccept.lean) computes it from the concrete argument. -/
+def W.accept (w : W) (disc : Option Int) (headers : Bool) (sub : Bool) (badSub : Bool) (hdrExc : Option Exc) : W × Option Exc :=
   if w.isClosed disc then (w, some .notAllowed) else
   if w.st != .handshake then (w, some .notAllowed) else
   if badSub then (w, some .valueOther) else
   if headers && !w.supHeaders then (w, some .notAllowed) else
+  if headers && hdrExc.isSome then (w, hdrExc) else
   match w.send_ disc (.accept headers sub) with
   | (w, none) => ({ w with st := .accepted }, none)
   | r => r
@@ -173,10 +177,20 @@ def W.recv (w : W) (k : RecvKind) : W × Option Exc :=
       | .media, .bytes => (w, if w.binMediaOk then none else some .pyErr)
       | .media, _ => (w, some .payloadType)
 
+/-- a `receive_*()` the responder ABANDONS (`asyncio.wait_for(ws.receive_text(), timeout)` whose timeout fires, a receive task that
+    is cancelled): it starts like any other receive - so the wrong-state errors and the assertion are raised at once -, finds no
+    event, parks (in `_BufferedReceiver.receive` on its pop-waiter; with queue 0 on the server's `receive`) and is cancelled there.
+    The `finally` of `_BufferedReceiver.receive` resets the waiter, a cancelled pull consumes nothing: no trace is left in the
+    protocol state.  (That the call really was parked is an observation of the run, like `disc`; its timing is C18's subject.) -/
+def W.recvAbandoned (w : W) (_k : RecvKind) : W × Option Exc :=
+  match w.requireAccepted with
+  | some e => (w, some e)
+  | none => if w.pumpStopped then (w, some .assertion) else (w, none)
+
 /-- one step of a responder / middleware / error-handler script -/
 inductive Op where
-  | accept (headers : Bool) (sub : Bool) (badSub : Bool) | close (arg : CodeArg) (reason : Bool)
-  | send (k : Kind) | recv (k : RecvKind)
+  | accept (headers : Bool) (sub : Bool) (badSub : Bool) (hdrExc : Option Exc) | close (arg : CodeArg) (reason : Bool)
+  | send (k : Kind) | recv (k : RecvKind) | recvAbandoned (k : RecvKind)
   | raiseHttp (status : Int) | raiseStatus (status : Int) | raiseExc | raiseBoom
   /-- the script itself raises an exception of one of the framework's own classes (`raise falcon.WebSocketDisconnected(code)`,
       `OperationNotAllowed`, `PayloadTypeError`, `ValueError`, `OSError`, …) - by hand, or because it came out of an operation on
@@ -185,10 +199,11 @@ inductive Op where
 deriving DecidableEq, Repr
 
 def W.op (w : W) (disc : Option Int) : Op → W × Option Exc
-  | .accept h s b => w.accept disc h s b
+  | .accept h s b he => w.accept disc h s b he
   | .close a r => w.close disc a r
   | .send k => w.sendMsg disc k
   | .recv k => w.recv k
+  | .recvAbandoned k => w.recvAbandoned k
   | .raiseHttp s => (w, some (.httpError s))
   | .raiseStatus s => (w, some (.httpStatus s))
   | .raiseExc => (w, some .pyErr)
